@@ -1969,8 +1969,9 @@ impl XmlDocumentTypeDeclaration {
                             let entity = XmlEntity::node(v, declaration_id, context);
                             declaration.borrow_mut().push_child(entity);
                         }
-                        parser::DeclarationEntity::ParameterEntity(_) => {
-                            unimplemented!("Not support parameter entity reference.")
+                        parser::DeclarationEntity::ParameterEntity(v) => {
+                            // Not support parameter entity reference.
+                            return Err(error::Error::InvalidData(format!("%{}", v.name)));
                         }
                     },
                     parser::DeclarationMarkup::Notation(v) => {
@@ -1982,8 +1983,9 @@ impl XmlDocumentTypeDeclaration {
                         declaration.borrow_mut().push_child(pi);
                     }
                 },
-                parser::InternalSubset::ParameterEntityReference(_) => {
-                    unimplemented!("Not support parameter entity reference.")
+                parser::InternalSubset::ParameterEntityReference(v) => {
+                    // Not support parameter entity reference.
+                    return Err(error::Error::InvalidData(format!("%{};", v)));
                 }
                 parser::InternalSubset::Whitespace(_) => {
                     // drop
@@ -4311,8 +4313,9 @@ fn entity_value_from_name(name: &str, context: &Context, normalize: bool) -> err
                 let v = entity_value_from_name(v, context, normalize)?;
                 parsed.push_str(v.as_str());
             }
-            XmlEntityValue::Parameter(_) => {
-                unimplemented!("Not support parameter entity reference.")
+            XmlEntityValue::Parameter(v) => {
+                // Not support parameter entity reference.
+                return Err(error::Error::InvalidData(format!("%{};", v)));
             }
             XmlEntityValue::Text(v) if normalize => parsed.push_str(normalize_ws(v).as_str()),
             XmlEntityValue::Text(v) => parsed.push_str(v.as_str()),
